@@ -63,6 +63,7 @@ type vspActorSpec struct {
 	Ch   string `json:"ch"`
 	P    int    `json:"p"`
 	J    int    `json:"j"`
+	M    int    `json:"m"` // MapClientPresenceChannel "clients:<channel>" (client subscribe only)
 	Fail string `json:"fail"`
 }
 
@@ -71,6 +72,7 @@ type vspScenario struct {
 	Actors []vspActorSpec    `json:"actors"`
 	Chans  []string          `json:"chans"`
 	Sched  []json.RawMessage `json:"sched"`
+	Obs    int               `json:"obs"` // observer connections (JSON/Protobuf x bi/unidirectional) subscribed to every channel
 }
 
 const (
@@ -362,6 +364,7 @@ type vspWorld struct {
 	node   *Node
 	broker *vspBroker
 	pres   *vspPresence
+	mapb   *vspMapBroker
 	mu     sync.Mutex
 	env    *vspEnv
 	seq    int
@@ -462,22 +465,32 @@ func (p *vspPresence) RemovePresence(ch string, clientID string, userID string) 
 }
 
 type vspTransport struct {
-	s      *vspSched
+	s      *vspSched // nil for observer connections (no gates)
+	proto  ProtocolType
+	uni    bool
 	mu     sync.Mutex
-	data   []byte
+	msgs   [][]byte
 	closed bool
 }
 
 func (t *vspTransport) Name() string                     { return "vsp" }
 func (t *vspTransport) AcceptProtocol() string           { return "" }
-func (t *vspTransport) Protocol() ProtocolType           { return ProtocolTypeJSON }
+func (t *vspTransport) Protocol() ProtocolType {
+	if t.proto == "" {
+		return ProtocolTypeJSON
+	}
+	return t.proto
+}
 func (t *vspTransport) ProtocolVersion() ProtocolVersion { return ProtocolVersion2 }
-func (t *vspTransport) Unidirectional() bool             { return false }
+func (t *vspTransport) Unidirectional() bool             { return t.uni }
 func (t *vspTransport) Emulation() bool                  { return false }
 func (t *vspTransport) PingPongConfig() PingPongConfig {
 	return PingPongConfig{PingInterval: time.Hour, PongTimeout: -1}
 }
 func (t *vspTransport) DisabledPushFlags() uint64 {
+	if t.s == nil {
+		return 0
+	}
 	pc, _, _, ok := runtime.Caller(1)
 	if ok {
 		name := runtime.FuncForPC(pc).Name()
@@ -490,20 +503,21 @@ func (t *vspTransport) DisabledPushFlags() uint64 {
 func (t *vspTransport) Write(m []byte) error {
 	t.mu.Lock()
 	defer t.mu.Unlock()
-	t.data = append(t.data, m...)
-	t.data = append(t.data, '\n')
+	t.msgs = append(t.msgs, append([]byte(nil), m...))
 	return nil
 }
 func (t *vspTransport) WriteMany(ms ...[]byte) error {
 	t.mu.Lock()
 	defer t.mu.Unlock()
 	for _, m := range ms {
-		t.data = append(t.data, m...)
-		t.data = append(t.data, '\n')
+		t.msgs = append(t.msgs, append([]byte(nil), m...))
 	}
 	return nil
 }
 func (t *vspTransport) Close(Disconnect) error {
+	if t.s == nil {
+		return nil
+	}
 	t.s.gate("tclose", "", false, func(bool) {
 		t.mu.Lock()
 		t.closed = true
@@ -511,10 +525,125 @@ func (t *vspTransport) Close(Disconnect) error {
 	})
 	return nil
 }
-func (t *vspTransport) count(needle string) int {
+
+// pushes decodes everything written to the transport the way a client of this transport's kind does:
+// bidirectional = Reply objects, unidirectional = Push objects, in the transport's protocol.  A message in
+// a foreign encoding or framing is unreadable for that client and yields nothing.
+func (t *vspTransport) pushes() []*protocol.Push {
 	t.mu.Lock()
-	defer t.mu.Unlock()
-	return bytes.Count(t.data, []byte(needle))
+	msgs := make([][]byte, len(t.msgs))
+	copy(msgs, t.msgs)
+	t.mu.Unlock()
+	var out []*protocol.Push
+	for _, m := range msgs {
+		func() {
+			defer func() { _ = recover() }()
+			if t.Protocol() == ProtocolTypeProtobuf {
+				if t.uni {
+					var p protocol.Push
+					if err := p.UnmarshalVT(m); err == nil {
+						out = append(out, &p)
+					}
+					return
+				}
+				var r protocol.Reply
+				if err := r.UnmarshalVT(m); err == nil && r.Push != nil {
+					out = append(out, r.Push)
+				}
+				return
+			}
+			if t.uni {
+				var p protocol.Push
+				if err := json.Unmarshal(m, &p); err == nil {
+					out = append(out, &p)
+				}
+				return
+			}
+			dec := protocol.NewJSONReplyDecoder(m)
+			for {
+				r, err := dec.Decode()
+				if r != nil && r.Push != nil {
+					out = append(out, r.Push)
+				}
+				if err != nil {
+					return
+				}
+			}
+		}()
+	}
+	return out
+}
+
+// countPub: how many decodable publications with exactly this payload arrived on the channel
+func (t *vspTransport) countPub(ch string, data string) int {
+	n := 0
+	for _, p := range t.pushes() {
+		if p.Pub != nil && p.Channel == ch && string(p.Pub.Data) == data {
+			n++
+		}
+	}
+	return n
+}
+
+func (t *vspTransport) sawMessage(data string) bool {
+	for _, p := range t.pushes() {
+		if p.Message != nil && string(p.Message.Data) == data {
+			return true
+		}
+	}
+	return false
+}
+
+// joinLeaveSeq: the join / leave pushes about connection `uid` on channel `ch`, in arrival order
+func (t *vspTransport) joinLeaveSeq(ch string, uid string) string {
+	var sb strings.Builder
+	for _, p := range t.pushes() {
+		if p.Channel != ch {
+			continue
+		}
+		if p.Join != nil && p.Join.Info != nil && p.Join.Info.Client == uid {
+			sb.WriteByte('J')
+		}
+		if p.Leave != nil && p.Leave.Info != nil && p.Leave.Info.Client == uid {
+			sb.WriteByte('L')
+		}
+	}
+	if sb.Len() == 0 {
+		return "-"
+	}
+	return sb.String()
+}
+
+// vspMapBroker: the MemoryMapBroker with gates at Publish / Remove (map presence add, refresh, removal)
+type vspMapBroker struct {
+	*MemoryMapBroker
+	w *vspWorld
+}
+
+func (b *vspMapBroker) Publish(ctx context.Context, ch string, key string, opts MapPublishOptions) (MapUpdateResult, error) {
+	e := b.w.cur()
+	if e == nil || !strings.HasPrefix(ch, "clients:") {
+		return b.MemoryMapBroker.Publish(ctx, ch, key, opts)
+	}
+	var res MapUpdateResult
+	var err error
+	e.s.gate("mappub", strings.TrimPrefix(ch, "clients:"), false, func(bool) {
+		res, err = b.MemoryMapBroker.Publish(ctx, ch, key, opts)
+	})
+	return res, err
+}
+
+func (b *vspMapBroker) Remove(ctx context.Context, ch string, key string, opts MapRemoveOptions) (MapUpdateResult, error) {
+	e := b.w.cur()
+	if e == nil || !strings.HasPrefix(ch, "clients:") {
+		return b.MemoryMapBroker.Remove(ctx, ch, key, opts)
+	}
+	var res MapUpdateResult
+	var err error
+	e.s.gate("maprm", strings.TrimPrefix(ch, "clients:"), false, func(bool) {
+		res, err = b.MemoryMapBroker.Remove(ctx, ch, key, opts)
+	})
+	return res, err
 }
 
 func vspNewWorld() (*vspWorld, error) {
@@ -531,11 +660,18 @@ func vspNewWorld() (*vspWorld, error) {
 			}
 		},
 		Metrics: MetricsConfig{RegistererGatherer: registry},
+		Map: MapConfig{
+			GetMapChannelOptions: func(channel string) MapChannelOptions {
+				return MapChannelOptions{Mode: MapModeEphemeral, KeyTTL: 60 * time.Second, MinPageSize: 1}
+			},
+		},
 	})
 	if err != nil {
 		return nil, err
 	}
 	w.node = node
+	w.mapb = &vspMapBroker{MemoryMapBroker: node.mapBroker.(*MemoryMapBroker), w: w}
+	node.SetMapBroker(w.mapb)
 	w.broker = &vspBroker{inner: node.broker.(*MemoryBroker), w: w}
 	node.SetBroker(w.broker)
 	w.pres = &vspPresence{inner: node.presenceManager.(*MemoryPresenceManager), w: w}
@@ -573,7 +709,11 @@ func vspNewWorld() (*vspWorld, error) {
 			} else if a != nil && a.spec.Fail == "onsubdisc" {
 				cerr = DisconnectInvalidToken
 			}
-			cb(SubscribeReply{Options: SubscribeOptions{EmitPresence: p, EmitJoinLeave: j, PushJoinLeave: j}}, cerr)
+			opts := SubscribeOptions{EmitPresence: p, EmitJoinLeave: j, PushJoinLeave: j}
+			if a != nil && a.spec.M != 0 {
+				opts.MapClientPresenceChannel = "clients:" + ev.Channel
+			}
+			cb(SubscribeReply{Options: opts}, cerr)
 		})
 		c.OnUnsubscribe(func(ev UnsubscribeEvent) {
 			e := w.cur()
@@ -619,9 +759,16 @@ type vspEnv struct {
 	blog     []string
 	cbMu     sync.Mutex
 	holding  bool
+	observers []*vspObserver
 	connectSubs []vspActorSpec
 	baseConn float64
 	baseSub  float64
+}
+
+type vspObserver struct {
+	name   string
+	client *Client
+	tr     *vspTransport
 }
 
 func (e *vspEnv) real(ch string) string {
@@ -771,6 +918,8 @@ func (e *vspEnv) runActor(a *vspActor) {
 			c.Unsubscribe(ch)
 		case "close":
 			_ = c.close(DisconnectForceNoReconnect)
+		case "tick":
+			c.updatePresence()
 		case "connect":
 			// the real command path: a failing connect makes HandleCommand spawn close()
 			if !c.HandleCommand(&protocol.Command{Id: 1, Connect: &protocol.ConnectRequest{}}, 0) {
@@ -862,10 +1011,40 @@ func vspRunScenario(line string) (out string) {
 		if e.client != nil {
 			_ = e.client.close(DisconnectForceNoReconnect)
 		}
+		for _, o := range e.observers {
+			_ = o.client.close(DisconnectForceNoReconnect)
+		}
 		w.mu.Lock()
 		w.env = nil
 		w.mu.Unlock()
 	}()
+	if sc.Obs != 0 {
+		// observers: every protocol x direction, subscribed (server side, with join/leave pushes) to every channel
+		// before the scenario starts; they stay subscribed to the end and decode what they receive
+		for _, k := range []struct {
+			name  string
+			proto ProtocolType
+			uni   bool
+		}{{"jb", ProtocolTypeJSON, false}, {"pu", ProtocolTypeProtobuf, true}, {"ju", ProtocolTypeJSON, true}, {"pb", ProtocolTypeProtobuf, false}} {
+			otr := &vspTransport{proto: k.proto, uni: k.uni}
+			octx, ocancel := context.WithCancel(context.Background())
+			defer ocancel()
+			oc, _, err := NewClient(octx, node, otr)
+			if err != nil {
+				return "HARNESS-ERROR observer: " + err.Error()
+			}
+			if err := oc.connectCmd(&protocol.ConnectRequest{}, &protocol.Command{Id: 1}, time.Now(), &replyWriter{write: func(*protocol.Reply) {}}); err != nil {
+				return "HARNESS-ERROR observer connect: " + err.Error()
+			}
+			oc.triggerConnect()
+			for _, ch := range e.chans {
+				if err := oc.Subscribe(e.real(ch), WithPushJoinLeave(true)); err != nil {
+					return "HARNESS-ERROR observer subscribe: " + err.Error()
+				}
+			}
+			e.observers = append(e.observers, &vspObserver{name: k.name, client: oc, tr: otr})
+		}
+	}
 	e.baseConn = vspGaugeSum(node.metrics.connectionsInflight)
 	e.baseSub = vspGaugeSum(node.metrics.subscriptionsInflight)
 	e.tr = &vspTransport{s: s}
@@ -1084,36 +1263,88 @@ func vspRunScenario(line string) (out string) {
 	s.mu.Lock()
 	s.freeRun = true
 	s.mu.Unlock()
-	for _, ch := range e.chans {
-		if _, err := node.Publish(e.real(ch), []byte(`{"m":"vspmark-`+ch+`"}`)); err != nil {
-			return "HARNESS-ERROR publish: " + err.Error()
+	const nMark = 3
+	mark := func(ch string, k int) string { return `{"m":"vspmark-` + ch + `-` + strconv.Itoa(k) + `"}` }
+	for k := 0; k < nMark; k++ {
+		for _, ch := range e.chans {
+			if _, err := node.Publish(e.real(ch), []byte(mark(ch, k))); err != nil {
+				return "HARNESS-ERROR publish: " + err.Error()
+			}
 		}
 	}
 	client.mu.RLock()
 	closed := client.status == statusClosed
 	client.mu.RUnlock()
-	if !closed {
-		_ = client.Send([]byte(`{"m":"vspend"}`))
+	// everything enqueued before the sentinel is written before it (one FIFO queue per connection)
+	waitFor := func(c *Client, tr *vspTransport) bool {
+		_ = c.Send([]byte(`{"m":"vspend"}`))
 		deadline := time.Now().Add(10 * time.Second)
-		for e.tr.count("vspend") == 0 {
+		for !tr.sawMessage(`{"m":"vspend"}`) {
 			if time.Now().After(deadline) {
-				return "HARNESS-ERROR sentinel not delivered"
+				return false
 			}
 			time.Sleep(100 * time.Microsecond)
+		}
+		return true
+	}
+	if !closed {
+		if !waitFor(client, e.tr) {
+			return "HARNESS-ERROR sentinel not delivered"
 		}
 	} else {
 		time.Sleep(300 * time.Microsecond)
 	}
+	for _, o := range e.observers {
+		if !waitFor(o.client, o.tr) {
+			return "HARNESS-ERROR observer sentinel not delivered (" + o.name + ")"
+		}
+	}
+	minmax := func(tr *vspTransport, ch string) string {
+		lo, hi := 1<<30, 0
+		for k := 0; k < nMark; k++ {
+			n := tr.countPub(e.real(ch), mark(ch, k))
+			if n < lo {
+				lo = n
+			}
+			if n > hi {
+				hi = n
+			}
+		}
+		return fmt.Sprintf("%d:%d", lo, hi)
+	}
 	var recv []string
 	var reported []string
+	var orecv []string
+	var ojl []string
 	chset := client.ChannelsWithContext()
 	for _, ch := range e.chans {
-		recv = append(recv, fmt.Sprintf("%s:%d", ch, e.tr.count(`vspmark-`+ch+`"`)))
+		recv = append(recv, ch+":"+minmax(e.tr, ch))
 		if _, ok := chset[e.real(ch)]; ok {
 			reported = append(reported, ch)
 		}
+		for _, o := range e.observers {
+			sub := 0
+			if o.client.IsSubscribed(e.real(ch)) {
+				sub = 1
+			}
+			orecv = append(orecv, fmt.Sprintf("%s.%s:%d:%s", o.name, ch, sub, minmax(o.tr, ch)))
+			ojl = append(ojl, fmt.Sprintf("%s.%s:%s", o.name, ch, o.tr.joinLeaveSeq(e.real(ch), client.uid)))
+		}
 	}
 	sort.Strings(reported)
+	// map client presence entries of this connection ("clients:<channel>", key = client id)
+	var mappres []string
+	for _, ch := range e.chans {
+		n := 0
+		if st, err := w.mapb.MemoryMapBroker.ReadState(context.Background(), "clients:"+e.real(ch), MapReadStateOptions{Limit: 100}); err == nil {
+			for _, pub := range st.Publications {
+				if pub.Key == client.uid {
+					n++
+				}
+			}
+		}
+		mappres = append(mappres, fmt.Sprintf("%s:%d", ch, n))
+	}
 	// C05 extras: users map, sessions, hub counters for this scenario's channels
 	cs := node.hub.connShards[index(client.UserID(), numHubShards)]
 	cs.mu.RLock()
@@ -1123,12 +1354,17 @@ func vspRunScenario(line string) (out string) {
 	}
 	cs.mu.RUnlock()
 	node.hub.sessionsMu.RLock()
-	nsess := len(node.hub.sessions)
+	nsess := 0
+	if sid := client.sessionID(); sid != "" {
+		if _, ok := node.hub.sessions[sid]; ok {
+			nsess = 1
+		}
+	}
 	node.hub.sessionsMu.RUnlock()
 	_, inConns := node.hub.Connections()[client.uid]
 	nsubs := 0
 	for _, ch := range e.chans {
-		nsubs += node.hub.NumSubscribers(e.real(ch))
+		nsubs += node.hub.NumSubscribers(e.real(ch)) - len(e.observers)
 	}
 	e.cbMu.Lock()
 	var unsubs []string
@@ -1141,9 +1377,13 @@ func vspRunScenario(line string) (out string) {
 	nch := len(client.channels)
 	client.mu.RUnlock()
 	s.mu.Lock()
-	s.emit("final %s | recv=%s reported=%s users=%v sessions=%d inconns=%v numsubs=%d nchan=%d onunsub=%s ondisc=%d keyed=%v",
+	if len(orecv) == 0 {
+		orecv, ojl = []string{"-"}, []string{"-"}
+	}
+	s.emit("final %s | recv=%s reported=%s users=%v sessions=%d inconns=%v numsubs=%d nchan=%d onunsub=%s ondisc=%d keyed=%v mappres=%s orecv=%s ojl=%s",
 		final, strings.Join(recv, ","), strings.Join(reported, ","), userReg, nsess, inConns,
-		nsubs, nch, strings.Join(unsubs, ","), ondisc, client.keyed != nil)
+		nsubs, nch, strings.Join(unsubs, ","), ondisc, client.keyed != nil, strings.Join(mappres, ","),
+		strings.Join(orecv, ","), strings.Join(ojl, ","))
 	res := strings.Join(s.trace, ";")
 	s.mu.Unlock()
 	return res
